@@ -232,6 +232,30 @@ Theorem model_passes_C07_clause_5 :
 Proof. exact model_passes_C07_clause_5_lemma. Qed.
 Print Assumptions model_passes_C07_clause_5.
 
+(** [model_passes_check], PARTIAL, for [check_case_C07] itself.  [model_case univ c h0 t0 l0 steps]
+    is the case the driver would print for the MODEL: its own observation after every step of ANY
+    history.  Whatever the checker ([check_case_C07] = correspondence, first violating step, clause)
+    answers on it, the clause is never 1, 2, 3 or 5: every boolean entry of those clauses of
+    [holds_C07] is re-proved over the observation lists from the invariants.  NOT covered: clause 4
+    (per-account balance movement over an end-block / call) and clause 6 (slashing iterated per
+    expired request), and the correspondence component.  Hypotheses: no module-served service,
+    a non-negative tax rate, escrows empty at the start, distinct hashes, no end-block with a
+    negative time increment, the observed universe [univ] contains the escrow accounts in the
+    configured denoms and the escrow / tax accounts in the fee denoms of the stored requests
+    (decidable: [fdsb_ok]), and the initial ledger is the one the checker rebuilds from the first
+    observation. *)
+Theorem model_passes_clauses_C07 :
+  forall c steps h0 t0 l0 univ,
+    c_msvc c < 0 -> 0 <= c_tax c -> clean l0 -> NoDup (create_txhs steps) -> Forall good_step steps ->
+    In (DEP, BASE) univ -> (forall d, In d (denoms c) -> In (REQ, d) univ) ->
+    (forall pre st post, steps = pre ++ st :: post -> forall rid q, get rid (reqs (run c (init h0 t0 l0) pre)) = Some q ->
+       In (TAX, q_fd q) univ /\ In (REQ, q_fd q) univ) ->
+    ledger_of (obs_of univ 0 None [] (init h0 t0 l0)) = l0 ->
+    forall corr p k, check_case_C07 (model_case univ c h0 t0 l0 steps) = (corr, p, k) ->
+      k <> 1 /\ k <> 2 /\ k <> 3 /\ k <> 5.
+Proof. exact model_passes_clauses_C07_lemma. Qed.
+Print Assumptions model_passes_clauses_C07.
+
 (** ** the hypotheses are satisfiable, the conclusions are not vacuous: a history with a
     time-discounted binding (price 100, half price until t = 2000), a second flat binding
     (60), one call to both, one response, one expiry with slashing *)
@@ -312,4 +336,18 @@ Proof.
   split; [split; [intros d|]; reflexivity|]. split; [vm_compute; tauto|].
   split; [intros d Hd; vm_compute in Hd; destruct Hd as [<-|[<-|[]]]; vm_compute; tauto|].
   split; vm_compute; reflexivity.
+Qed.
+
+(** the hypotheses of [model_passes_clauses_C07] hold of the first example history *)
+Example c07_model_passes_clauses_hypotheses_satisfiable :
+  c_msvc ex_cfg < 0 /\ 0 <= c_tax ex_cfg /\ NoDup (create_txhs ex_hist) /\ Forall good_step ex_hist
+  /\ (forall pre st post, ex_hist = pre ++ st :: post -> forall rid q, get rid (reqs (run ex_cfg (init 1 1000 ex_l0) pre)) = Some q ->
+        In (TAX, q_fd q) ex_univ /\ In (REQ, q_fd q) ex_univ)
+  /\ ledger_of (obs_of ex_univ 0 None [] (init 1 1000 ex_l0)) = ledger_of (obs_of ex_univ 0 None [] (init 1 1000 (ledger_of (obs_of ex_univ 0 None [] (init 1 1000 ex_l0)))))
+  /\ check_case_C07 (model_case ex_univ ex_cfg 1 1000 (ledger_of (obs_of ex_univ 0 None [] (init 1 1000 ex_l0))) ex_hist) = (-1, -1, 0).
+Proof.
+  split; [vm_compute; reflexivity|]. split; [vm_compute; discriminate|].
+  split; [vm_compute; repeat constructor; simpl; tauto|].
+  split; [repeat constructor; vm_compute; discriminate|].
+  split; [apply fdsb_ok; vm_compute; reflexivity|]. split; vm_compute; reflexivity.
 Qed.
